@@ -62,13 +62,19 @@ SLICES['capstone'] = {
     'theorems': ['Lcdb.Compaction.' + t for t in ('chunks_fileOk', 'outputs_fit_gap', 'mechanism_full_stepOk', 'mechanism_full_preserves')],
 }
 
+SLICES['end-to-end'] = {
+    'what': 'no suite of its own: the capstone stated from the public entry points (pick_compaction, compact_range, the flush of the immutable memtable)',
+    'module': 'LcdbModel.Props.MechanismEndToEnd', 'gen': None,
+    'theorems': ['Lcdb.Compaction.' + t for t in ('pickCompaction_full_preserves', 'compactRange_full_preserves', 'flush_full_preserves', 'flush0_full_preserves')],
+}
+
 # property -> slices (quick size, thorough size)
 PROP_SLICES = {
-    'C01': [('policy', 700, 20000), ('skiplist', 700, 20000), ('cache', 700, 20000), ('capstone', 0, 0)],
+    'C01': [('policy', 700, 20000), ('skiplist', 700, 20000), ('cache', 700, 20000), ('capstone', 0, 0), ('end-to-end', 0, 0)],
     'C10': [('cache', 1200, 40000), ('skiplist', 600, 20000)],
     'C18': [('cache', 600, 20000)],
-    'C14': [('policy', 1500, 60000), ('capstone', 0, 0)],
-    'C06': [('capstone', 0, 0)],
+    'C14': [('policy', 1500, 60000), ('capstone', 0, 0), ('end-to-end', 0, 0)],
+    'C06': [('capstone', 0, 0), ('end-to-end', 0, 0)],
     'C07': [('skiplist', 900, 30000), ('skiplist-iter', 0, 0)],
     'C02': [('wfile', 900, 30000)],
     'C03': [('wfile', 700, 20000)],
